@@ -14,7 +14,7 @@ META = {
     "engine": "engine",
     "design_ref": "5/C20",
     "coq_targets": ["Props/Properties_C20.vo", "Engine/Check.vo"],
-    "coq_files": ["Engine/Model.v", "Engine/Spec.v", "Engine/Check.v", "Engine/GetProofs.v", "Props/Properties_C20.v"],
+    "coq_files": ["Engine/Model.v", "Engine/Spec.v", "Engine/Check.v", "Engine/GetProofs.v", "Engine/GetWitness.v", "Props/Properties_C20.v"],
     "theorems": ["C20_get_iff_partial", "C20_get_iff_refuted", "C20_error_does_not_hide",
                  "C20_removed_stays_removed_partial", "C20_removed_reappears_refuted",
                  "C20_head_iff_partial"],
@@ -56,7 +56,7 @@ def chunks(hs, n):
     return [(o, hs[o:o + n]) for o in range(0, len(hs), n)]
 
 
-def evaluate(ctx, hs, ch=20):
+def evaluate(ctx, hs, ch=8):
     """-> (model mismatches [(hist, op)], deviations [(hist, op, class)], stats [consistent, reads]) or None"""
     jobs = [("c20", E.PRELUDE + E.hists_def(part),
              {"model": "model_mismatches cases", "devs": "all_devs cases", "stats": "reads_stats cases"})
@@ -84,7 +84,7 @@ def run(ctx):
                 hs.append(out[0])
                 origin.append((v["seed"], v["hist"]))
     else:
-        count = 60 if ctx.tier == "quick" else 600
+        count = 48 if ctx.tier == "quick" else 480
         hs = ctx.run_json([binp, "c20", str(count)])
         origin = [(ctx.seed, i) for i in range(len(hs))]
     if not model:
@@ -123,8 +123,8 @@ def run(ctx):
                 "and error counters); non-trivial = reads on engines with >= 2 shards, distinct by (op, order, result, modes, error counters)",
         "histories": len(hs),
         "reads": len(reads),
-        "gets_checked_against_reference": stats[1],
-        "gets_in_consistent_state": stats[0],
+        "reads_checked_against_reference": stats[1],
+        "reads_in_consistent_state": stats[0],
         "deviation_classes": {CLASS_TEXT.get(c, str(c))[:60]: n for c, n in seen.items()},
         "op_histogram": dict(collections.Counter(o["op"] for o in ops)),
         "result_histogram": dict(collections.Counter("%s:%d" % (o["op"], o["res"]) for o in ops if o["op"] in ("get", "head", "put", "del", "drop"))),
